@@ -21,7 +21,8 @@ def jobs(tier):
         tag = 'io' if inorder else 'ooo'
         J.append(kjob('sem_1w1s_%s' % tag, SRC, 2, 4, ['INORDER=%d' % inorder, 'NSIG=1'], desc='1 waiter, 1 signaller, %s' % tag, timeout=1200, unwind=3, mem_gb=16))
     # (1 waiter + signaller + interrupter, and 2 waiters + signaller, exist in the harness but ran out of memory at 16-20 GB on Layer B: not registered)
-    J.append(kjob('sem_2w_ghost_io', SRC, 2, 4, ['INORDER=1', 'NSIG=1', 'GHOST_WAITER'], kn=3, desc='1 running waiter + 1 constructed sleeping waiter (queued behind it), 1 signaller that may take a token itself, in-order', timeout=1500, unwind=4, mem_gb=20))
+    J.append(kjob('sem_2w_ghost_nobarge_io', SRC, 2, 4, ['INORDER=1', 'NSIG=1', 'GHOST_WAITER', 'GHOST_FIXED', 'NO_BARGE'], kn=3, desc='1 running waiter (demand 2, deadline never / finite) + 1 constructed sleeping waiter (demand 1) queued behind it, 1 signal of 0..2 tokens, in-order', timeout=1500, unwind=3, mem_gb=16))
+    if os.environ.get('VERIF_EXPERIMENTAL'): J.append(kjob('sem_2w_ghost_io', SRC, 2, 4, ['INORDER=1', 'NSIG=1', 'GHOST_WAITER', 'GHOST_FIXED'], kn=3, desc='1 running waiter + 1 constructed sleeping waiter (queued behind it), 1 signaller that may take a token itself, in-order', timeout=2400, unwind=3, mem_gb=30))
     # (2 queued waiters + signaller on Layer B: SAT out of memory at 32 GB even with fixed demands; the signal step below covers the 2-waiter resume rules sequentially)
     for j in J: j.cbmc += ['-DVERIF_STUCK_IS_LEGAL']
     for inorder in (1, 0):
